@@ -414,3 +414,30 @@ def run(ctx):
     rule_N2(ctx)
     rule_N3(ctx)
     rule_N4(ctx)
+    # cached weights (1/std^2) must not survive a replacement of the
+    # observed data they were computed from (shared rule with C12.OW2)
+    from . import c12
+    sm = ctx.repo.mod(SIMS)
+    E = c12.Effects(ctx, sm)
+    from ..core.cfg import CFG
+    n = 0
+    for name, fn in sorted(E.members.items()):
+        if name in c12.RESETTERS:
+            continue
+        cfg = CFG(fn)
+        inv = [nd for nd in cfg.nodes if 'weights' in c12.node_invalidations(nd)]
+        for nd in cfg.nodes:
+            if nd.kind != 'stmt' or nd.ast is None:
+                continue
+            for it, st in c12.stmt_effects(nd.ast)[0]:
+                if it == 'observed':
+                    n += 1
+                    ctx.check('C13.N5.weights', f'Simulation.{name}: new '
+                              'observed data invalidate the cached weights',
+                              c12.must_pass(cfg, nd, inv),
+                              'observed data are replaced but data.weights '
+                              '(1/std^2 of the OLD data) stay cached: the '
+                              'next misfit uses weights and gap pattern of '
+                              'the previous observations',
+                              ctx.where(sm, st))
+    ctx.need(n >= 1, 'no store to data.observed found in Simulation')
